@@ -219,10 +219,13 @@ func rulesC16(c *Ctx) {
 				return ok && !a.Val && th.Callee(ce) != nil && th.Callee(ce).Name() == "isObjectJSON"
 			})
 			if isNilBranch {
-				// the branch condition is exactly `res.Content == nil`
-				if ifs, ok := th.Enclosing(w, func(n ast.Node) bool { _, ok := n.(*ast.IfStmt); return ok }).(*ast.IfStmt); ok {
-					if x, twn, isNil := NilTest(ifs.Cond); isNil && twn && th.IsField(x, contentF) {
-						fb++
+				// the branch is taken exactly when `res.Content == nil`: that test, and no other non-exit test, gates the write
+				// (whether it is written as an if, an else-if or a case)
+				if gate := g.gateOf(g.VertexOf(w)); len(gate) > 0 {
+					if cond, ok := g.Node(gate[len(gate)-1]).(ast.Expr); ok {
+						if x, twn, isNil := NilTest(cond); isNil && twn && th.IsField(x, contentF) {
+							fb++
+						}
 					}
 				}
 			} else if notObj {
